@@ -146,6 +146,226 @@ fn create(src: Src, n: usize, when: DropWhen) -> Live {
     live
 }
 
+
+/// A custom source with a watcher thread of its own: it publishes a change every
+/// 2 ms, stops when the reloader no longer listens (`send` fails), and is joined
+/// when the source held by the cache is dropped.
+struct LiveSource {
+    mem: Mem,
+    watcher: std::sync::Arc<std::sync::Mutex<Option<std::thread::JoinHandle<u64>>>>,
+    primary: bool,
+}
+
+impl Source for LiveSource {
+    fn read(&self, id: &str, ext: &str) -> std::io::Result<FileContent<'_>> {
+        self.mem.read(id, ext)
+    }
+    fn read_dir(&self, id: &str, f: &mut dyn FnMut(DirEntry)) -> std::io::Result<()> {
+        self.mem.read_dir(id, f)
+    }
+    fn exists(&self, e: DirEntry) -> bool {
+        self.mem.exists(e)
+    }
+    fn make_source(&self) -> Option<Box<dyn Source + Send>> {
+        Some(Box::new(LiveSource { mem: self.mem.clone(), watcher: self.watcher.clone(), primary: false }))
+    }
+    fn configure_hot_reloading(&self, events: assets_manager::hot_reloading::EventSender) -> Result<(), assets_manager::BoxedError> {
+        let h = std::thread::Builder::new().name("vh_live_watch".into()).spawn(move || {
+            let mut sent = 0u64;
+            while events.send(assets_manager::source::OwnedDirEntry::File("x".into(), "a".into())).is_ok() {
+                sent += 1;
+                std::thread::sleep(Duration::from_millis(2));
+            }
+            sent
+        })?;
+        *self.watcher.lock().unwrap() = Some(h);
+        Ok(())
+    }
+}
+
+impl Drop for LiveSource {
+    fn drop(&mut self) {
+        if self.primary {
+            if let Some(h) = self.watcher.lock().unwrap().take() {
+                let _ = h.join();
+            }
+        }
+    }
+}
+
+/// Dropping a cache whose source joins its own watcher: the drop must finish, which needs the
+/// reloader to stop listening before (or independently of) the source going away.
+fn live_source_drop(rep: &mut Report, rounds: usize) {
+    for round in 0..rounds {
+        rep.eval();
+        let before = reloader_tids();
+        let mem = Mem::new("c15live", Hot::No);
+        mem.write("x", "a", b"leaf");
+        let src = LiveSource { mem: mem.clone(), watcher: Default::default(), primary: true };
+        let cache = AssetCache::with_source(src);
+        let _ = cache.load::<Leaf<1, 0, true>>("x");
+        if round % 2 == 1 {
+            cache.hot_reload();
+        }
+        std::thread::sleep(Duration::from_millis(20));
+        let mine: BTreeSet<i32> = reloader_tids().difference(&before).cloned().collect();
+        let done = std::sync::Arc::new(std::sync::atomic::AtomicBool::new(false));
+        let d2 = done.clone();
+        let dropper_tid = std::sync::Arc::new(std::sync::atomic::AtomicI32::new(0));
+        let t2 = dropper_tid.clone();
+        let dropper = std::thread::Builder::new()
+            .name("vh_dropper".into())
+            .spawn(move || {
+                t2.store(procfs::gettid(), std::sync::atomic::Ordering::SeqCst);
+                drop(cache);
+                d2.store(true, std::sync::atomic::Ordering::SeqCst);
+            })
+            .unwrap();
+        let scen = json!({"source": "custom source with a watcher thread joined in its Drop", "round": round, "hot_reload_before_drop": round % 2 == 1});
+        // logical verdict: violation only on a quiescent cycle (everybody asleep, nobody progressing)
+        let mut quiet_windows = 0;
+        let mut snapshot = vec![];
+        let t0 = std::time::Instant::now();
+        while !done.load(std::sync::atomic::Ordering::SeqCst) && t0.elapsed() < Duration::from_secs(120) {
+            let watch: Vec<procfs::Task> = procfs::tasks().into_iter().filter(|t| t.comm == "vh_live_watch" || t.comm == "vh_dropper" || mine.contains(&t.tid)).collect();
+            let sw0: Vec<u64> = watch.iter().map(|t| procfs::voluntary_switches(t.tid).unwrap_or(0) + t.ticks).collect();
+            std::thread::sleep(Duration::from_millis(500));
+            if done.load(std::sync::atomic::Ordering::SeqCst) {
+                break;
+            }
+            let dr = procfs::task(dropper_tid.load(std::sync::atomic::Ordering::SeqCst));
+            let reloader_alive = mine.iter().filter_map(|t| procfs::task(*t)).filter(|t| t.comm.starts_with("assets_hot_relo")).count();
+            let dropper_asleep = dr.as_ref().is_some_and(|t| t.state == 'S') && {
+                let now: Vec<u64> = watch.iter().filter(|t| t.comm == "vh_dropper").map(|t| procfs::voluntary_switches(t.tid).unwrap_or(0) + procfs::task(t.tid).map_or(0, |x| x.ticks)).collect();
+                let was: Vec<u64> = watch.iter().zip(&sw0).filter(|(t, _)| t.comm == "vh_dropper").map(|(_, s)| *s).collect();
+                now == was
+            };
+            if dropper_asleep && reloader_alive > 0 {
+                quiet_windows += 1;
+                snapshot = watch.iter().map(|t| json!({"thread": t.comm, "state": procfs::task(t.tid).map(|x| x.state.to_string())})).collect();
+            } else {
+                quiet_windows = 0;
+            }
+            if quiet_windows >= 6 {
+                break;
+            }
+        }
+        if done.load(std::sync::atomic::Ordering::SeqCst) {
+            let _ = dropper.join();
+            rep.count("live_source_drops_finished", 1);
+            rep.nontrivial(mix(0x11fe, round as u64));
+        } else if quiet_windows >= 6 {
+            rep.violation(
+                "drop-never-finishes",
+                "C15/cache-drop-blocked:reloader-outlives-source",
+                json!({"what": "drop(cache) sleeps in the source's Drop (joining its watcher) while the reloader thread of that cache is still alive and listening; six consecutive 500 ms windows without progress",
+                       "threads": snapshot}),
+                scen,
+            );
+            // the threads are stuck for good: leave them behind
+            return;
+        } else {
+            rep.inconclusive("live-source drop: watchdog (120 s) without a quiescent cycle");
+            return;
+        }
+    }
+}
+
+/// No native watcher available (no file descriptor left for inotify): hot-reloading is
+/// simply off. Nothing may start running in the background instead.
+fn without_native_watcher(rep: &mut Report) {
+    rep.eval();
+    let interesting = |t: &procfs::Task| t.comm.starts_with("notify-rs") || t.comm.starts_with("assets_hot_relo");
+    let before: BTreeSet<i32> = procfs::tasks().iter().filter(|t| interesting(t)).map(|t| t.tid).collect();
+    let dir = crate::util::scratch_dir("c15nofd");
+    std::fs::write(dir.join("x.a"), b"v0").unwrap();
+    // use up the descriptor table: soft limit = what is open now
+    let mut lim = libc::rlimit { rlim_cur: 0, rlim_max: 0 };
+    if unsafe { libc::getrlimit(libc::RLIMIT_NOFILE, &mut lim) } != 0 {
+        rep.inconclusive("getrlimit failed");
+        return;
+    }
+    let highest = std::fs::read_dir("/proc/self/fd").map(|d| d.flatten().filter_map(|e| e.file_name().to_str().and_then(|s| s.parse::<u64>().ok())).max().unwrap_or(2)).unwrap_or(2);
+    // keep every slot below the highest one occupied, then forbid anything above
+    let mut fillers = vec![];
+    while let Ok(f) = std::fs::File::open("/dev/null") {
+        use std::os::fd::AsRawFd;
+        let fd = f.as_raw_fd() as u64;
+        fillers.push(f);
+        if fd > highest || fillers.len() > 4096 {
+            break;
+        }
+    }
+    let low = libc::rlimit { rlim_cur: highest + 1, rlim_max: lim.rlim_max };
+    let inotify_refused;
+    let mut caches = vec![];
+    unsafe {
+        libc::setrlimit(libc::RLIMIT_NOFILE, &low);
+        let probe = libc::inotify_init1(libc::IN_CLOEXEC);
+        inotify_refused = probe < 0;
+        if probe >= 0 {
+            libc::close(probe);
+        }
+    }
+    if inotify_refused {
+        for _ in 0..3 {
+            if let Ok(c) = AssetCache::new(&dir) {
+                caches.push(c);
+            }
+        }
+    }
+    unsafe {
+        libc::setrlimit(libc::RLIMIT_NOFILE, &lim);
+    }
+    drop(fillers);
+    if !inotify_refused {
+        rep.note("without-native-watcher: could not make inotify_init fail; scenario skipped");
+        let _ = std::fs::remove_dir_all(dir);
+        return;
+    }
+    let mut loaded = 0;
+    for c in &caches {
+        if c.load::<Leaf<1, 0, true>>("x").is_ok() {
+            loaded += 1;
+        }
+    }
+    let scen = json!({"kind": "filesystem caches created while no file descriptor is left for a native watcher", "caches": caches.len(), "loads_ok": loaded});
+    std::thread::sleep(Duration::from_millis(100));
+    let alive = |before: &BTreeSet<i32>| -> Vec<procfs::Task> { procfs::tasks().into_iter().filter(|t| interesting(t) && !before.contains(&t.tid)).collect() };
+    let while_idle = alive(&before);
+    let wake0: u64 = while_idle.iter().filter_map(|t| procfs::voluntary_switches(t.tid)).sum();
+    std::thread::sleep(Duration::from_millis(1500));
+    let wake1: u64 = while_idle.iter().filter_map(|t| procfs::voluntary_switches(t.tid)).sum();
+    if !while_idle.is_empty() && wake1 >= wake0 + 3 {
+        rep.violation(
+            "wakes-while-idle",
+            "C15/background-threads-wake-while-idle:no-native-watcher",
+            json!({"threads": while_idle.iter().map(|t| t.comm.clone()).collect::<Vec<_>>(), "wakeups_in_1500_ms_while_nothing_changed": wake1 - wake0}),
+            scen.clone(),
+        );
+    }
+    drop(caches);
+    std::thread::sleep(Duration::from_millis(300));
+    let left = alive(&before);
+    if !left.is_empty() {
+        let w0: u64 = left.iter().filter_map(|t| procfs::voluntary_switches(t.tid)).sum();
+        std::thread::sleep(Duration::from_millis(1500));
+        let still = alive(&before);
+        let w1: u64 = still.iter().filter_map(|t| procfs::voluntary_switches(t.tid)).sum();
+        if !still.is_empty() && w1 >= w0 + 3 {
+            rep.violation(
+                "threads-left-after-drop",
+                "C15/background-threads-keep-running-after-drop:no-native-watcher",
+                json!({"threads": still.iter().map(|t| t.comm.clone()).collect::<Vec<_>>(), "wakeups_in_1500_ms_after_the_drop": w1 - w0}),
+                scen.clone(),
+            );
+        }
+    }
+    rep.count("without_native_watcher_observed", 1);
+    rep.nontrivial(mix(0x0fd, loaded as u64));
+    let _ = std::fs::remove_dir_all(dir);
+}
+
 pub fn run(args: &Args) -> Report {
     let mut rep = Report::new(args);
     rep.rule = "create / use / drop sequences of 1..K caches over in-memory (sender kept by the source, kept by the \
@@ -288,6 +508,11 @@ pub fn run(args: &Args) -> Report {
             rep.nontrivial(mix(0xf5, with_dropped as u64));
         }
         let _ = std::fs::remove_dir_all(dir);
+    }
+    // ---- a source that joins its own watcher when dropped; no native watcher available
+    if args.shard == args.nshards - 1 {
+        live_source_drop(&mut rep, if args.thorough() { 12 } else { 4 });
+        without_native_watcher(&mut rep);
     }
     // ---- repeated create/drop does not accumulate threads or load
     let reps = if args.thorough() { 50 } else { 15 };
